@@ -14,6 +14,8 @@ EXTENDS PortsProp, TLC
 
 CONSTANTS Fixed,        \* explicit ports the application may bind (besides 0)
           Ops,          \* alphabet of this configuration (subset of the op names below)
+          BindKindsP,   \* bind addresses in the alphabet: "any" (0.0.0.0 / ::) and / or "lo" (127.0.0.1 / ::1);
+                        \* the tables are keyed by port alone, so the kind changes nothing in the model
           MaxOps,       \* bound on the history length
           MaxIn,        \* bound on accepted (incoming) streams
           LeakOnFail,   \* TRUE = the code before the D12 repair: a failed / cancelled
@@ -67,35 +69,35 @@ FreeSlot(s) == ~Live(s) /\ \A t \in Slots : t < s => Live(t)
 Step(lbl) == nops' = nops + 1 /\ last' = lbl
 
 ---------------------------------------------------------------------------
-BindUdp(s, p) ==
-    /\ "bind_udp" \in Ops /\ nops < MaxOps /\ FreeSlot(s)
+BindUdp(s, p, kind) ==
+    /\ "bind_udp" \in Ops /\ nops < MaxOps /\ FreeSlot(s) /\ kind \in BindKindsP
     /\ IF p = 0
        THEN LET a == Alloc IN
             /\ cursor' = a.cur
             /\ udpB' = IF a.port = 0 THEN udpB ELSE udpB \cup {a.port}
             /\ P_Bind("udp", s, 0, IF a.port = 0 THEN Exhausted ELSE a.port)
-            /\ Step([a |-> "bind", proto |-> "udp", s |-> s, p |-> 0,
+            /\ Step([a |-> "bind", proto |-> "udp", kind |-> kind, s |-> s, p |-> 0,
                      res |-> IF a.port = 0 THEN Exhausted ELSE a.port])
        ELSE /\ cursor' = cursor
             /\ udpB' = udpB \cup {p}
             /\ P_Bind("udp", s, p, IF p \in udpB THEN AddrInUse ELSE p)
-            /\ Step([a |-> "bind", proto |-> "udp", s |-> s, p |-> p,
+            /\ Step([a |-> "bind", proto |-> "udp", kind |-> kind, s |-> s, p |-> p,
                      res |-> IF p \in udpB THEN AddrInUse ELSE p])
     /\ UNCHANGED <<tcpB, ent, leaked, names, nin>>
 
-BindTcp(s, p) ==
-    /\ "bind_tcp" \in Ops /\ nops < MaxOps /\ FreeSlot(s)
+BindTcp(s, p, kind) ==
+    /\ "bind_tcp" \in Ops /\ nops < MaxOps /\ FreeSlot(s) /\ kind \in BindKindsP
     /\ IF p = 0
        THEN LET a == Alloc IN
             /\ cursor' = a.cur
             /\ tcpB' = IF a.port = 0 THEN tcpB ELSE tcpB \cup {a.port}
             /\ P_Bind("tcp", s, 0, IF a.port = 0 THEN Exhausted ELSE a.port)
-            /\ Step([a |-> "bind", proto |-> "tcp", s |-> s, p |-> 0,
+            /\ Step([a |-> "bind", proto |-> "tcp", kind |-> kind, s |-> s, p |-> 0,
                      res |-> IF a.port = 0 THEN Exhausted ELSE a.port])
        ELSE /\ cursor' = cursor
             /\ tcpB' = tcpB \cup {p}
             /\ P_Bind("tcp", s, p, IF p \in tcpB THEN AddrInUse ELSE p)
-            /\ Step([a |-> "bind", proto |-> "tcp", s |-> s, p |-> p,
+            /\ Step([a |-> "bind", proto |-> "tcp", kind |-> kind, s |-> s, p |-> p,
                      res |-> IF p \in tcpB THEN AddrInUse ELSE p])
     /\ UNCHANGED <<udpB, ent, leaked, names, nin>>
 
@@ -200,8 +202,8 @@ Regex(m) ==
 
 ---------------------------------------------------------------------------
 Next ==
-    \/ \E s \in Slots, p \in Fixed \cup {0} : BindUdp(s, p)
-    \/ \E s \in Slots, p \in Fixed \cup {0} : BindTcp(s, p)
+    \/ \E s \in Slots, p \in Fixed \cup {0}, kind \in BindKindsP : BindUdp(s, p, kind)
+    \/ \E s \in Slots, p \in Fixed \cup {0}, kind \in BindKindsP : BindTcp(s, p, kind)
     \/ \E s \in Slots, how \in {"ok", "refused", "noroute", "cancel"} : Connect(s, how)
     \/ \E s, l \in Slots : AcceptIn(s, l)
     \/ \E s \in Slots : Drop(s)
